@@ -262,12 +262,47 @@ def timing_callback_inst(tier):
                 note='RLBOX_MEASURE_TRANSITION_TIMES on the callback path')
 
 
+def timing_exceptional_inst(which, tier):
+    """the timing instances under L-throw: exactly one timing record per crossing on every exit (an exception out of the sandboxed call /
+    callback body, or an abort at an argument / result conversion inside the crossing)"""
+    base = timing_invoke_inst(tier) if which == 'invoke' else timing_callback_inst(tier)
+    dyn = ('dynamic_check(throws when the check fails)', _is('dynamic_check'), '__CPROVER_ensures(g_exc == !$0)\n__CPROVER_assigns(g_exc)')
+    keep = [c for c in base.contract if c[1].startswith('__CPROVER_requires')]
+    frame = [c for c in base.contract if c[0] == 'frame'][0]
+    cl = keep + [('no_exception_in_flight_at_entry', '__CPROVER_requires(!g_exc)'),
+                 ('exactly_one_timing_record_on_every_exit', '__CPROVER_ensures(g_records == 1 && g_gcalls <= 1 && g_clock_reads == 2)'),
+                 ('record_describes_this_crossing', [c for c in base.contract if c[0] == 'record_describes_this_crossing'][0][1]),
+                 ('every_guard_has_run', '__CPROVER_ensures(g_armed_guards == 0)'),
+                 ('frame', frame[1].replace('__CPROVER_assigns(', '__CPROVER_assigns(g_exc, '))]
+    base.contract = cl
+    base.name = base.name + '_exceptional_exit'
+    leaves = []
+    for lf in base.leaves:
+        if lf == 'dynamic_check':
+            leaves.append(dyn)
+        elif isinstance(lf, tuple) and 'impl_invoke_with_func_ptr' in lf[0]:
+            leaves.append((lf[0] + ' may throw', lf[1], lf[2].replace('__CPROVER_assigns(g_gcalls)', '__CPROVER_assigns(g_exc, g_gcalls)')))
+        else:
+            leaves.append(lf)
+    base.leaves = leaves
+    base.opts = dict(base.opts, exc_model=True)
+    base.pre = base.pre + ' _Bool g_exc;\n'
+    if base.post_protos:
+        base.post_protos = base.post_protos.replace('__CPROVER_assigns(g_gcalls);', '__CPROVER_assigns(g_exc, g_gcalls);')
+    base.harness = base.harness.replace('g_armed_guards = 0;', 'g_exc = 0; g_armed_guards = 0;', 1)
+    base.replay = None
+    base.note = 'L-throw on the timing configuration: the record is written by the guard on every exit'
+    return base
+
+
 def timing_units(tier):
-    return [Unit('C19_timing', [timing_invoke_inst(tier), timing_callback_inst(tier)], pre_cpp=TIMING_CPP)]
+    return [Unit('C19_timing', [timing_invoke_inst(tier), timing_callback_inst(tier), timing_exceptional_inst('invoke', tier), timing_exceptional_inst('callback', tier)], pre_cpp=TIMING_CPP)]
 
 
 def units(tier):
-    return [Unit('C19_transitions', [invoke_inst(tier), interceptor_inst(tier), per_sandbox_state_inst(tier), exceptional_inst('invoke', tier), exceptional_inst('callback', tier)], pre_cpp=PRE_CPP), single_hook_insts('IN', tier), single_hook_insts('OUT', tier)] + timing_units(tier)
+    from .common import base_at_offset_zero_inst
+    return [Unit('C19_transitions', [invoke_inst(tier), interceptor_inst(tier), per_sandbox_state_inst(tier), exceptional_inst('invoke', tier), exceptional_inst('callback', tier),
+                                     base_at_offset_zero_inst('c19_executing_sandbox_pointer_designates_the_sandbox_object', PROP, ['rlbox::vsbx'], tier)], pre_cpp=PRE_CPP), single_hook_insts('IN', tier), single_hook_insts('OUT', tier)] + timing_units(tier)
 
 
 ASSUMPTIONS = [
